@@ -78,3 +78,14 @@ Theorem C04_alg_of_set_alg :
   alg_of (Some (set_alg p a)) = Acc a.
 Proof. exact alg_of_set_alg. Qed.
 Print Assumptions C04_alg_of_set_alg.
+
+(* decoded messages: the alg consulted is the one encoded in the protected bytes *)
+Theorem C04_decoded_alg_is_wire_alg :
+  forall p pm,
+  dec_protected p = Acc pm ->
+  (exists w, p = WStr false w [] /\ alg_of (Some pm) = Rej EAlgNotFound) \/
+  (exists w c wm l ks vs, p = WStr false w c /\ lib_wf true c = Some (WMap wm l) /\
+                          labels_pass l = Acc ks /\ values_pass l = Acc vs /\
+                          alg_of (Some pm) = alg_of (Some (zip_flat ks vs))).
+Proof. exact decoded_alg_is_wire_alg. Qed.
+Print Assumptions C04_decoded_alg_is_wire_alg.
